@@ -152,7 +152,7 @@ func allScenarios(tier string) []*Scenario {
 	addMergeSplitGrid(ss, thorough)
 	addFeatureGrid(ss, thorough)
 	// a caller cancelled while it waits for room in the shard's input channel (stalled export, max_concurrency 1)
-	ss.add(Scenario{Name: "D7-cancel-backpressure", QB: 1, TB: 2, Signal: "traces", S: 1, Timeout: T, K: 1, NumCPU: 1, Early: true,
+	ss.add(Scenario{Name: "D7-cancel-backpressure", QZero: true, TB: 1, Signal: "traces", S: 1, Timeout: T, K: 1, NumCPU: 1, Early: true,
 		Callers: []CallerSpec{{Label: "B", Reqs: []Shape{simple("traces", "B", 1)}}, {Label: "C", Reqs: []Shape{simple("traces", "C", 1)}},
 			{Label: "D", Reqs: []Shape{simple("traces", "D", 1)}}, {Label: "A", Cancellable: true, Reqs: []Shape{simple("traces", "A", 1)}}}})
 	// K2: max_concurrency=2 with three batches in flight
